@@ -35,7 +35,7 @@ BOUND = {k: v + "; plus: " + 'group and repeat targets (count(${section}) and th
 
 NAMES = ["a", "b", "c", "d", "e", "f", "g", "h", "i", "j", "k", "l", "m", "n", "o", "p"]
 CHOICES = [{"list_name": "c", "name": "x", "label": "X", "cf": "1"}, {"list_name": "c", "name": "y", "label": "Y", "cf": "2"}]
-SHAPES = ["plain", "two", "lastsaved", "lastsaved-text", "lastsaved-seed", "indexed", "instpred", "trigger"]
+SHAPES = ["plain", "two", "lastsaved", "lastsaved-text", "lastsaved-seed", "indexed", "instpred", "trigger", "choicelabel"]
 
 
 def forest_to_json(f):
@@ -325,6 +325,7 @@ def build(case):
             R = nodes[case["r"]]["name"]
             reps = [nd["i"] for nd in nodes if nd["kind"] == "r"]
             R2 = nodes[reps[(reps.index(case["r"]) + 1) % len(reps)]]["name"]
+            R3 = nodes[reps[(reps.index(case["r"]) + 2) % len(reps)]]["name"]
             cells = {"calculation": f"indexed-repeat(${{{t}}}, ${{{R}}}, ${{{u}}})",
                      "relevant": f"indexed-repeat(${{{t}}}, ${{{R}}}, 1, ${{{R2}}}, ${{{u}}}) = 1",
                      "constraint": f"indexed-repeat(${{{t}}}, ${{{R}}}, 1) = ${{{u}}}",
@@ -332,7 +333,9 @@ def build(case):
                      "required": f"indexed-repeat(${{{t}}}, ${{{R}}}, 1) + indexed-repeat(${{{u}}}, ${{{R}}}, 2) > ${{{t}}}",
                      "read_only": f"${{{u}}} = 1 or indexed-repeat(${{{t}}}, ${{{R}}}, ${{{u}}}) = indexed-repeat(${{{t}}}, ${{{R}}}, 3) or ${{{u}}} = 2",
                      # plain references to the same names in later columns of the same row
-                     "bind::bz": f"${{{t}}} = 106 and ${{{u}}} = 107", "instance::ia": f"${{{t}}}"}
+                     "bind::bz": f"${{{t}}} = 106 and ${{{u}}} = 107", "instance::ia": f"${{{t}}}",
+                     # the longest documented form: three repeat levels (arguments 1, 3 and 5 name sections)
+                     "bind::by": f"indexed-repeat(${{{t}}}, ${{{R}}}, 1, ${{{R2}}}, 2, ${{{R3}}}, ${{{u}}} - 1) = ${{{u}}}"}
         elif shape == "instpred":
             cells = {"calculation": f"instance('c')/root/item[name = ${{{t}}}]/label",
                      "label": f"L instance('c')/root/item[name = ${{{t}}}]/label l",
@@ -344,6 +347,9 @@ def build(case):
                      "required": f"${{{t}}} = 103 or ${{{u}}} = 104", "bind::bz": f"${{{t}}} = 106"}
         elif shape == "trigger":
             cells = {"trigger": f"${{{t}}}", "calculation": f"${{{u}}} + 105"}
+        elif shape == "choicelabel":
+            # references in the translated labels of the select's choices; every row of the form is translated as well
+            cells = {"clabel::en": f"C ${{{t}}} en", "clabel::fr": f"C ${{{u}}} then ${{{t}}} fr"}
         elif shape == "cont":
             # the target is a group or repeat (count(${section}) and the like), possibly one that encloses the referrer
             cells = {"calculation": f"count(${{{t}}}) + 105", "relevant": f"count(${{{t}}}) > ${{{u}}}", "label": f"L ${{{t}}} l", "constraint": f". < count(${{{t}}})"}
@@ -367,7 +373,7 @@ def build(case):
             if tnode[0] == "q":
                 if i == xi:
                     typ = "calculate" if shape == "trigger" else "select_one c"
-                    r = {"type": typ, "name": nm, **cells}
+                    r = {"type": typ, "name": nm, **{k_: v_ for k_, v_ in cells.items() if not k_.startswith("clabel")}}
                     if typ != "calculate" and "label" not in r:
                         r["label"] = "X"
                 else:
@@ -384,6 +390,12 @@ def build(case):
 
     rec(forest)
     wb = {"survey": rows, "choices": [dict(c) for c in CHOICES]}
+    if shape == "choicelabel":
+        for r in rows:
+            if "label" in r:
+                lb = r.pop("label")
+                r.update({"label::en": lb + " en", "label::fr": lb + " fr"})
+        wb["choices"] = [{**{k_: v_ for k_, v_ in c.items() if k_ != "label"}, "label::en": cells["clabel::en"] + f" {c['name']}", "label::fr": cells["clabel::fr"] + f" {c['name']}"} for c in CHOICES]
     return wb, nodes, cells
 
 
@@ -555,7 +567,7 @@ def check_one(case):
     bm = obs.bind_map()
     xb = bm.get(px, [None])[0]
     battr = {"relevant": "relevant", "constraint": "constraint", "required": "required", "read_only": "readonly",
-             "bind::bz": "bz"}
+             "bind::bz": "bz", "bind::by": "by"}
     ctrl = None
     for el, tag, ref, anc in obs.body_controls():
         if ref == px and tag not in ("setvalue", "repeat") and ctrl is None:
@@ -613,6 +625,22 @@ def check_one(case):
     for cell, src in cells.items():
         if cell in battr:
             do_cell(cell, src, xb.get(battr[cell]) if xb is not None else None)
+        elif cell.startswith("clabel::"):
+            # the choice texts of that language: every output must reach its question from the select's node (absolute or relative)
+            L = cell.split("::")[1]
+            per = {tid: dict(vals) for lang, dflt, texts in obs.itext if lang == L for tid, vals in texts}
+            for k_, c in enumerate(CHOICES):
+                el = per.get(f"c-{k_}", {}).get(None)
+                if el is None:
+                    viol.append((f"cell-missing:{cell}:{case['shape']}", f"no text c-{k_} in language {L}"))
+                    continue
+                s_, vals = text_with_placeholders(el)
+                rf = refs_in(src)
+                if len(vals) != len(rf):
+                    viol.append((f"cell-unaligned:{cell}:{case['shape']}", f"src={src!r} outputs={vals!r}"))
+                    continue
+                for pos, ((ls, nm), raw) in enumerate(zip(rf, vals)):
+                    check_path(cell, pos, raw.strip(), nm, ls, "free")
         elif cell == "calculation":
             if case["shape"] == "trigger":
                 tp = "/" + "/".join(T["path"])
